@@ -343,16 +343,190 @@ impl SubCheck for Positional {
 	}
 }
 
+// ---------------------------------------------------------------------------------------------
+// typed results: an answer whose value does not decode into the caller's type
+// ---------------------------------------------------------------------------------------------
+
+#[derive(Clone, Debug, Serialize, Deserialize, PartialEq)]
+pub struct Nonce {
+	pub nonce: u64,
+}
+
+#[derive(Clone, Debug, Serialize, Deserialize)]
+pub struct TypedCase {
+	/// per entry: 0 = a value of the caller's type, 1 = a string, 2 = an object of the wrong shape, 3 = null, 4 = an error object
+	pub kinds: Vec<u8>,
+	pub perm: Vec<u16>,
+	pub id_kind: IdK,
+	pub http: bool,
+}
+
+pub struct Typed;
+
+impl SubCheck for Typed {
+	type Case = TypedCase;
+	fn name(&self) -> &'static str {
+		"typed-results"
+	}
+	fn cases(&self, tier: Tier) -> u32 {
+		tier.pick(40_000, 800_000)
+	}
+	fn strategy(&self, _tier: Tier) -> BoxedStrategy<TypedCase> {
+		(proptest::collection::vec(prop_oneof![4 => Just(0u8), 1 => Just(1u8), 1 => Just(2u8), 1 => Just(3u8), 1 => Just(4u8)], 1..6), proptest::collection::vec(any::<u16>(), 4), prop_oneof![Just(IdK::Number), Just(IdK::String)], any::<bool>())
+			.prop_map(|(kinds, perm, id_kind, http)| TypedCase { kinds, perm, id_kind, http })
+			.boxed()
+	}
+	fn run(&self, case: &TypedCase, obs: &mut Obs) {
+		let n = case.kinds.len();
+		let order = crate::props::c03::perm_from(&case.perm, n);
+		let value_of = |i: usize| -> Value {
+			match case.kinds[i] {
+				0 => json!({"nonce": 100 + i}),
+				1 => json!(format!("not-a-nonce-{i}")),
+				2 => json!({"nonce": format!("{i}")}),
+				3 => Value::Null,
+				_ => Value::Null,
+			}
+		};
+		let build = |ids: &[Value]| -> Value {
+			Value::Array(
+				order
+					.iter()
+					.map(|&i| if case.kinds[i] == 4 { json!({"jsonrpc":"2.0","id":ids[i],"error":{"code":-32050 - i as i64,"message":format!("e{i}")}}) } else { json!({"jsonrpc":"2.0","id":ids[i],"result":value_of(i)}) })
+					.collect(),
+			)
+		};
+		let undecodable = case.kinds.iter().any(|k| matches!(k, 1 | 2 | 3));
+		if undecodable && n >= 2 {
+			obs.nontrivial();
+		}
+		obs.class(if undecodable { "with-undecodable-value" } else { "all-values-decode" });
+		obs.class(if case.http { "http-client" } else { "ws-client" });
+		crate::panics::clear_local();
+		let rt = rt();
+		type Res = Result<Vec<Result<Nonce, (i32, String)>>, String>;
+		let judge = |obs: &mut Obs, got: Res, desc: &dyn Fn() -> String| match got {
+			Err(e) => {
+				// the whole call may fail - but only if something in the reply could not be decoded
+				obs.check(undecodable, "c12/typed-decodable-batch-failed", || format!("{e}; {}", desc()));
+			}
+			Ok(entries) => {
+				if entries.len() != n {
+					obs.fail("c12/typed-shorter-list", format!("{} entries for {n} requests: {entries:?}; {}", entries.len(), desc()));
+					return;
+				}
+				for (i, e) in entries.iter().enumerate() {
+					let ok = match (case.kinds[i], e) {
+						(0, Ok(v)) => v.nonce == 100 + i as u64,
+						(4, Err((c, m))) => *c as i64 == -32050 - i as i64 && *m == format!("e{i}"),
+						(1 | 2 | 3, Err(_)) => true,
+						_ => false,
+					};
+					if !ok {
+						obs.fail("c12/typed-entry-filled-with-another-entrys-answer", format!("entry {i} = {e:?}; all = {entries:?}; {}", desc()));
+						return;
+					}
+				}
+			}
+		};
+		let collect = |r: jsonrpsee_core::client::BatchResponse<'_, Nonce>| -> Res {
+			let (ok, failed, len) = (r.num_successful_calls(), r.num_failed_calls(), r.len());
+			let entries: Vec<Result<Nonce, (i32, String)>> = r.into_iter().map(|e| e.map_err(|e| (e.code(), e.message().to_string()))).collect();
+			let ok2 = entries.iter().filter(|e| e.is_ok()).count();
+			if ok != ok2 || failed != entries.len() - ok2 || len != entries.len() {
+				return Ok(vec![]).and_then(|_: Vec<Result<Nonce, (i32, String)>>| Err(format!("COUNTS num_successful_calls={ok} num_failed_calls={failed} len={len} entries={entries:?}")));
+			}
+			Ok(entries)
+		};
+		const NAMES: [&str; 6] = ["t0", "t1", "t2", "t3", "t4", "t5"];
+		let mut b = BatchRequestBuilder::new();
+		for i in 0..n {
+			b.insert(NAMES[i], rpc_params![i]).unwrap();
+		}
+		if case.http {
+			rt.block_on(async {
+				let seen: Arc<parking_lot::Mutex<Option<Value>>> = Default::default();
+				let seen2 = seen.clone();
+				let order2 = order.clone();
+				let kinds = case.kinds.clone();
+				let mock = HMock {
+					handler: Arc::new(move |req: Value| {
+						let ids: Vec<Value> = req.as_array().map(|a| a.iter().map(|e| e["id"].clone()).collect()).unwrap_or_default();
+						let arr: Vec<Value> = order2
+							.iter()
+							.map(|&i| {
+								if kinds[i] == 4 {
+									json!({"jsonrpc":"2.0","id":ids[i],"error":{"code":-32050 - i as i64,"message":format!("e{i}")}})
+								} else {
+									let v = match kinds[i] {
+										0 => json!({"nonce": 100 + i}),
+										1 => json!(format!("not-a-nonce-{i}")),
+										2 => json!({"nonce": format!("{i}")}),
+										_ => Value::Null,
+									};
+									json!({"jsonrpc":"2.0","id":ids[i],"result":v})
+								}
+							})
+							.collect();
+						*seen2.lock() = Some(Value::Array(arr.clone()));
+						(200, Value::Array(arr).to_string().into_bytes())
+					}),
+				};
+				let client = http_client(case.id_kind, mock);
+				let got: Res = match client.batch_request::<Nonce>(b).await {
+					Ok(r) => collect(r),
+					Err(e) => Err(format!("{e:?}")),
+				};
+				let desc = || format!("http reply={:?} case={case:?}", seen.lock());
+				if let Err(e) = &got {
+					if e.starts_with("COUNTS") {
+						obs.fail("c12/typed-counts-mismatch", format!("{e}; {}", desc()));
+						return;
+					}
+				}
+				judge(obs, got, &desc);
+			});
+		} else {
+			rt.block_on(async {
+				let mut mc = MockClient::new(ClientCfg { id_kind: case.id_kind, ..ClientCfg::default() });
+				let c = mc.client.clone();
+				let h = tokio::spawn(async move { c.batch_request::<Nonce>(b).await.map(|r| r.into_iter().map(|e| e.map_err(|e| (e.code(), e.message().to_string()))).collect::<Vec<_>>()).map_err(|e| format!("{e:?}")) });
+				settle().await;
+				let wire = mc.new_wire();
+				let ids: Vec<Value> = wire.iter().find_map(|m| m.as_array().cloned()).map(|a| a.iter().map(|e| e["id"].clone()).collect()).unwrap_or_default();
+				if ids.len() != n {
+					obs.fail("c12/typed-batch-not-on-wire", format!("{wire:?}"));
+					return;
+				}
+				let reply = build(&ids);
+				mc.push_text(reply.to_string());
+				settle().await;
+				let desc = || format!("ws reply={reply} case={case:?}");
+				use futures_util::FutureExt;
+				match h.now_or_never() {
+					Some(Ok(got)) => judge(obs, got, &desc),
+					Some(Err(e)) => obs.fail("c12/typed-front-end-panic", format!("{e}; {}", desc())),
+					None => obs.fail("c12/typed-batch-still-pending", desc()),
+				}
+				let panics = crate::panics::take_local();
+				obs.check(panics.is_empty(), "c12/background-panic", || format!("{panics:?}; {}", desc()));
+			});
+		}
+	}
+}
+
 pub fn check(ctx: &mut Ctx) {
 	ctx.rule = "batches of n <= 5 (quick) / 8 entries; the mock server's reply array is generated from the request's wire ids: any permutation, any subset, duplicated ids, foreign ids (below/above the range, another in-flight batch's, u64::MAX, non-numeric, null), \
 		per-entry result or error, id kind number/string; async (WebSocket) client alone and with another batch and a call in flight, and the HTTP client behind a mocked backend (after 0..3 warm-up requests). Every reply entry carries a fresh nonce. \
 		Oracle: a full duplicate-free reply => Ok with exactly n entries, entry i = the outcome stamped for request i, counts = entries; any other reply => the call fails, or n entries each being one of its own request's stamped outcomes or an error, never another entry's. \
-		Non-trivial = n >= 2 and the reply is not the identity order; distinct by case value."
+		Sub-check typed-results: batches of 1..5 entries decoded into a struct type, the reply (any permutation) answering some entries with values that do not decode (string, wrong shape, null) or error objects: the call fails as a whole, or returns n entries with every decodable entry at its own position and every undecodable one an error. \
+		Non-trivial = n >= 2 and the reply is not the identity order (positional) / contains an undecodable value (typed); distinct by case value."
 		.into();
 	ctx.assumptions = vec!["the two in-flight batches of the WS scenario use disjoint id ranges (notifications advance the allocator in between), so a subset reply of one cannot be the full reply of the other".into()];
 	ctx.run_sub(&Positional);
+	ctx.run_sub(&Typed);
 }
 
 pub fn replay(file: &serde_json::Value) -> Option<i32> {
-	replay_with(&Positional, file, "C12")
+	replay_with(&Positional, file, "C12").or_else(|| replay_with(&Typed, file, "C12"))
 }
